@@ -120,6 +120,8 @@ def run_lin(case):
     sig = lops.signature(desc)
     nontrivial = any(l != "Identity" for l in lops.leaf_ops(desc))
     try:
+        if sum(case["rs"]) % 2:
+            lops.prime_siblings(desc)     # construction history (see lops.prime_siblings)
         A = lops.build(desc)
     except Exception as e:
         return inconclusive("constructor raised %s: %s [%s]" % (
@@ -645,8 +647,12 @@ def run_prox(case):
     sig = "prox|%s|%s" % (name, "c" if cplx else "r")
     x = crandn(rng, shape, np.complex128 if cplx else np.float64)
     x0 = x.copy()
-    if name == "Stack-alpha":
+    if name == "Stack-alpha" or (case["fseed"] % 3 == 0 and not name.startswith("Stack")
+                                 and "Psd" not in name):
+        # element-wise step sizes (prox.Stack hands views of one array to its members, the
+        # primal-dual solver passes arrays): an argument like the input
         alpha = np.abs(crandn(rng, shape, np.float64)) + 0.1
+        sig += "|alpha-array"
     else:
         alpha = float(10 ** rng.uniform(-2, 1))
     a0 = np.copy(alpha)
